@@ -1092,9 +1092,8 @@ pub fn bnd_doc() {
 // ------------------------------------------------------------------------------------------------------------------------------
 // C03 over the DOM pass (process_dom_node and the table/list constructors): a fixed catalogue of element structures, each with unique
 // tokens k1, k2, … whose visibility follows from HTML alone (everything in the body except script/style/head).
-pub fn c03_elements() {
-    use html2text::render::TrivialDecorator;
-    let docs: Vec<(&str, &str)> = vec![
+fn c03_docs() -> Vec<(&'static str, &'static str)> {
+    vec![
         ("<ol>k1<li>k2</li><em>k3</em><li>k4</li><ul><li>k5</li></ul></ol>", "k1k2k3k4k5"),
         ("<ul>k1<li>k2</li><em>k3</em><li>k4</li><ul><li>k5</li></ul><p>k6</p></ul>", "k1k2k3k4k5k6"),
         ("<dl>k1<dt>k2</dt><p>k3</p><dd>k4</dd></dl>", "k1k2k3k4"),
@@ -1138,7 +1137,11 @@ pub fn c03_elements() {
         ("<ul><li>k1</li></ul>k2<ol><li>k3</li></ol>k4<dl><dd>k5</dd></dl>k6", "k1k2k3k4k5k6"),
         ("<p>k1<br>k2<hr>k3</p>", "k1k2k3"),
         ("<div><span id=a></span><p id=b></p>k1<ul><li></li><li>k2</li></ul></div>", "k1k2"),
-    ];
+    ]
+}
+pub fn c03_elements() {
+    use html2text::render::TrivialDecorator;
+    let docs = c03_docs();
     let mut rep = Report::new("c03_elements", &format!("{} element structures (lists with stray children, definition lists, table sections and captions, form controls,         phrasing elements, foreign elements, nested tables, misnested block/inline) x widths 3, 10, 40, trivial decorator with width overflow allowed: the non-space characters of the output         are exactly the visible tokens of the document, in order", docs.len()));
     for (d, want) in &docs { for w in [3usize, 10, 40] {
         let input = format!("width={} html={}", w, d.replace('\n', "\\n"));
@@ -1280,6 +1283,26 @@ pub fn c08_elements() {
         let want_heads: Vec<(usize, String)> = (1..=n).map(|k| (k, hrefs[k - 1].to_string())).collect();
         if heads != want_heads { rep.found(&input, &format!("footnote list {:?}, expected {:?}; output {:?}", heads, want_heads, out)); }
     }}}
+    rep.finish();
+}
+
+// C02 / C11 over the element catalogues: the width bound and the overflow option on every element structure of c03_elements.
+pub fn c02_elements() {
+    use unicode_width::UnicodeWidthStr;
+    let docs = c03_docs();
+    let mut rep = Report::new("c02_elements", &format!("the {} element structures of c03_elements, widths 1..=12, plain decorator: no panic; every line within the width unless an error is returned;         with width overflow allowed always Ok and equal to the strict rendering when that succeeds", docs.len()));
+    for (d, _) in &docs { for w in 1..=12usize {
+        let input = format!("width={} html={}", w, d.replace('\n', "\\n"));
+        rep.case(&input);
+        let (h1, h2) = (d.to_string(), d.to_string());
+        let strict = match panic::catch_unwind(move || config::plain().string_from_read(h1.as_bytes(), w)) { Ok(x) => x.ok(), Err(_) => { rep.found(&input, "panic"); continue; } };
+        if let Some(s) = &strict { if let Some(l) = s.lines().find(|l| UnicodeWidthStr::width(*l) > w) { rep.found(&input, &format!("line {:?} is {} columns wide", l, UnicodeWidthStr::width(l))); continue; } }
+        match panic::catch_unwind(move || config::plain().allow_width_overflow().string_from_read(h2.as_bytes(), w)) {
+            Err(_) => rep.found(&input, "panic (allow_width_overflow)"),
+            Ok(Err(e)) => rep.found(&input, &format!("error {:?} although width overflow is allowed", e)),
+            Ok(Ok(o)) => if let Some(s) = &strict { if *s != o { rep.found(&input, &format!("allow_width_overflow changed a rendering that fits: {:?} vs {:?}", s, o)); } },
+        }
+    }}
     rep.finish();
 }
 
